@@ -19,6 +19,12 @@ Gap(m, g) == { [j \in 1..m |-> IF j < k THEN j ELSE j + g] : k \in 2..m }
 \* one duplicate: the k-th number is sent twice
 Dup(m) == { [j \in 1..(m + 1) |-> IF j <= k THEN j ELSE j - 1] : k \in 1..m }
 Variants(m) == {InOrder(m)} \cup Transp(m) \cup Gap(m, 1) \cup Dup(m)
+\* one aborted upload of the k-th number (kind 1: the body breaks inside the first fragment, 2: inside a later one),
+\* followed by the retry in full ...
+Ab(k, kind) == IF kind = 1 THEN -k ELSE -(1000 + k)
+AbortRetry(m, ks) == { [j \in 1..(m + 1) |-> IF j < k THEN j ELSE IF j = k THEN Ab(k, kind) ELSE j - 1] : k \in ks, kind \in {1, 2} }
+\* ... or never repeated
+AbortOnly(m, ks) == { [j \in 1..m |-> IF j = k THEN Ab(k, kind) ELSE j] : k \in ks, kind \in {1, 2} }
 \* all tracks in order
 Plain(T, m) == { [t \in T |-> InOrder(m)] }
 \* at most one track deviates from 1..m
@@ -30,6 +36,14 @@ AnyDev(T, m) == [T -> Variants(m)]
 OneDevNM(T, m) == { f \in OneDev(T, m) : f["V1"] = InOrder(m) }
 U_t2m4_nm == OneDevNM(T2, 4)
 U_t3m5_nm == OneDevNM(T3, 5)
+\* exactly one track has one aborted upload
+OneAbort(T, m, vs) == { [t \in T |-> IF t = d THEN v ELSE InOrder(m)] : d \in T, v \in vs }
+U_t2m4_abort == OneAbort(T2, 4, AbortRetry(4, 1..4) \cup AbortOnly(4, 1..4))
+U_t2m4_abortq == OneAbort(T2, 4, AbortRetry(4, {3, 4}))
+U_t3m4_abort == OneAbort(T3, 4, AbortRetry(4, 1..4) \cup AbortOnly(4, 1..4))
+\* two refused uploads of V1 (bodies broken inside a later fragment) each make room by deleting an older segment of V1,
+\* which is listed when A1 catches up (open finding: a refused upload deletes a stored segment)
+U_abortdel == { [t \in T2 |-> IF t = "V1" THEN <<1, 2, 3, -1004, -1005>> ELSE <<1, 2, 3>>] }
 U_t2m4 == Plain(T2, 4)
 \* a track that is far ahead before the window is known leaves files nobody deletes (open finding: orphan files)
 U_t2m7 == Plain(T2, 7)
